@@ -19,11 +19,13 @@ from ..digest import obj_digest
 TITLE = 'base height, statistics, flooring, order'
 EXPLORER = 'E1'
 CLAUSES = ['C04.base_in_range', 'C04.base_percentile', 'C04.stats', 'C04.fluffiness', 'C04.code_floor', 'C04.sorted',
-           'C04.lookback_lt100', 'C04.excluded', 'C04.fallback', 'C04.single_hit', 'C04.frac_base']
+           'C04.lookback_lt100', 'C04.excluded', 'C04.fallback', 'C04.single_hit', 'C04.frac_base', 'C04.lookback_integer_cut']
 RULE = ('family B (two-deck, two-ceilometer incl. fall-back scenes, splits, degenerate sizes 1/2/3 hits, thick decks with '
         'fractional-foot bases near x00 ft) x (BASE_LVL_HEIGHT_PERC {0,5,50,100} x BASE_LVL_LOOKBACK_PERC {1,30,50,100}) + '
         'exclusion lists {[one],[other],[all],[unknown]} + LOWESS {frac 0.05/1, it 0} + row orders; every row of the three '
-        'tables is recomputed. distinct_nontrivial = distinct (row statistics, parameters) digests')
+        'tables is recomputed; plus ALL (n hits, look-back p %) with n*p/100 an exact integer (n <= 120 quick / 300 thorough, p 1..99: the only '
+        'points where a re-association of the float arithmetic can move the cut) on a rising ramp with percentile 0, where the base '
+        'identifies the cut exactly. distinct_nontrivial = distinct (row statistics, parameters) digests')
 ASSUMPTIONS = ['look-back of n hits at p%: the floor(n*p/100) or ceil(...) latest hits, or all hits when the floor is 0; ties in time '
                'at the cut: any tie-break (<=60 combinations enumerated, otherwise only the range clause is judged)',
                'percentile: any value between the lower and higher order statistics bracketing the rank is accepted',
@@ -62,8 +64,15 @@ def bound(tier):
     return 'B: %d scenes x ~25-40 parameter/order variants' % len(_scene_list(tier))
 
 
+def ulp_ns(p, tier):
+    nmax = 120 if tier == 'quick' else 300
+    return [n for n in range(2, nmax + 1) if (n * p) % 100 == 0]
+
+
 def cases(tier):
-    return [{'name': name, 'scene': spec, 'tier': tier} for name, spec in _scene_list(tier)]
+    out = [{'name': name, 'scene': spec, 'tier': tier} for name, spec in _scene_list(tier)]
+    out += [{'name': 'ulp:%d' % p, 'ulp_p': p, 'tier': tier} for p in range(1, 100) if ulp_ns(p, tier)]
+    return out
 
 
 def ref_height_code(base):
@@ -184,7 +193,32 @@ def judge(res, r, prms, sub, scene_name):
             res['digests'].add(obj_digest([which, base, row['height_min'], row['height_max'], len(members), prms]))
 
 
+def run_ulp(case):
+    res = {'n': 0, 'clauses': {}, 'digests': set(), 'violations': [], 'crashed': 0}
+    p = case['ulp_p']
+    ns = ulp_ns(p, case['tier'])
+    if 'only_variant' in case:
+        ns = ns[:case['only_variant'] + 1]
+    prms = {'BASE_LVL_LOOKBACK_PERC': p, 'BASE_LVL_HEIGHT_PERC': 0}
+    for vi, n in enumerate(ns):
+        # rising ramp, one hit per time step, 0.5 ft per step: with percentile 0 the base IS the oldest hit of the look-back window
+        rows = [['a', -15.0 * (n - 1 - i), 1000.0 + 0.5 * i, 1] for i in range(n)]
+        r = pipeline.run(rows, prms, msgs=False)
+        res['n'] += 1
+        sub = {**{k: v for k, v in case.items() if k != 'only_variant'}, 'only_variant': vi}
+        if not r.ok:
+            res['crashed'] += 1
+            continue
+        res['clauses']['C04.lookback_integer_cut'] = res['clauses'].get('C04.lookback_integer_cut', 0) + 1
+        judge(res, r, prms, sub, '%s:n=%d' % (case['name'], n))
+    res['digests'] = sorted(res['digests'])
+    res['sample'] = {'scene': case['name'], 'variants': len(ns)}
+    return res
+
+
 def run_case(case):
+    if 'ulp_p' in case:
+        return run_ulp(case)
     res = {'n': 0, 'clauses': {}, 'digests': set(), 'violations': [], 'crashed': 0}
     variants = variants_for(case['name'], case['tier'])
     if 'only_variant' in case:
